@@ -391,9 +391,10 @@ pub fn run(sc: &Scenario, stats: &mut Stats) {
         .collect();
     ev(json!({"ev":"reset","sid":sc.sid,"fair":sc.fair,"n":n,
         "conns": sc.conns.iter().map(|c| json!({"calls": c.calls.iter().map(kind_to_json).collect::<Vec<_>>(),
-                                                 "faulty": c.faulty || c.fail_write_at > 0,
-                                                 // the only fault is on the write side: what reaches the client is still judged
-                                                 "wonly": c.fail_write_at > 0 && !c.faulty})).collect::<Vec<_>>()}));
+                                                 "faulty": c.faulty || c.fail_write_at > 0 || c.calls.iter().any(|k| matches!(k, Kind::Bad(_) | Kind::Garbage)),
+                                                 // the only fault is a failing write or a call that cannot be decoded: what
+                                                 // reaches the client is still judged
+                                                 "wonly": !c.faulty && (c.fail_write_at > 0 || c.calls.iter().any(|k| matches!(k, Kind::Bad(_) | Kind::Garbage)))})).collect::<Vec<_>>()}));
     let q = Rc::new(RefCell::new(VecDeque::new()));
     let svc_streams: Rc<RefCell<Vec<Ctl>>> = Default::default();
     let server = Server::new(L(q.clone()), Svc { streams: svc_streams.clone(), yield_in_handle: true });
@@ -710,6 +711,28 @@ pub fn gen_many_streams(r: &mut Rng, sid: String) -> Scenario {
     Scenario { sid, conns, steps, fair: false }
 }
 
+/// C08 with a call the service cannot decode somewhere in a connection's traffic, calls pipelined behind it: the
+/// calls in front of it are answered, nothing behind it is handled or answered (replies are paired with calls by
+/// position, so an unanswered call in the middle would shift every later answer).
+pub fn gen_badcall(r: &mut Rng, sid: String) -> Scenario {
+    let n = r.range(1, 3);
+    let mut conns: Vec<ConnScript> = (0..n)
+        .map(|_| ConnScript {
+            calls: (0..r.range(2, 6)).map(|_| { let st = r.chance(1, 4); rand_kind(r, st) }).collect(),
+            faulty: false,
+            fail_write_at: 0,
+            fail_once: false,
+            fail_deliver: 0,
+        })
+        .collect();
+    let c = r.below(n as u64) as usize;
+    let at = r.range(0, conns[c].calls.len() - 1);
+    let bad = if r.chance(1, 5) { Kind::Garbage } else { Kind::Bad(r.below(9) as u8) };
+    conns[c].calls.insert(at, bad);
+    let steps = rand_steps(r, &conns, false, &[]);
+    Scenario { sid, conns, steps, fair: false }
+}
+
 /// C08 on connections whose transport fails a write (for good or once, having handed over nothing, a part
 /// or everything): calls keep coming behind the failure; what reaches each client is judged.
 pub fn gen_wfault(r: &mut Rng, sid: String) -> Scenario {
@@ -761,10 +784,14 @@ pub fn gen_faulty(r: &mut Rng, sid: String) -> Scenario {
                 conns[c].fail_deliver = r.below(3) as u8;
             }
             3 => {
+                // a call the service cannot decode: the connection ends there - nothing is handled or written
+                // behind it (what reaches the client is still judged: `strict` in the reset event)
+                conns[c].faulty = false;
                 let at = r.range(0, conns[c].calls.len());
-                conns[c].calls.insert(at, Kind::Bad(r.below(9) as u8)); // a call the service cannot decode
+                conns[c].calls.insert(at, Kind::Bad(r.below(9) as u8));
             }
             4 => {
+                conns[c].faulty = false;
                 let at = r.range(0, conns[c].calls.len());
                 conns[c].calls.insert(at, Kind::Garbage);
             }
